@@ -546,3 +546,89 @@ func TestVerifC19Scoped(t *testing.T) {
 		}
 	}
 }
+
+
+// TestVerifC03Audience — the same history search judged for C03's audience clause only: "a cached
+// response only answers the exact question and AUDIENCE it was stored for". Every history (<= 3,
+// thorough 4) of positive questions by every client x authority scope under the first policy (floor
+// /20 below the /24 ceiling, so clamped scopes, shorter sources and out-of-network clients all occur):
+// a reply served from cache must come from an entry whose scope contains the client's forwarded
+// prefix and is no more specific than it; stored scopes are checked after every step.
+func TestVerifC03Audience(t *testing.T) {
+	c := vkit.Init("C03/audience")
+	defer c.Close()
+	if c.Replay != nil {
+		var r struct {
+			Hist []vkScEv `json:"hist"`
+		}
+		if json.Unmarshal(c.Replay, &r) != nil {
+			c.HarnessError("bad replay")
+			return
+		}
+		if v, _ := vkScReplay(0, r.Hist); v != "" {
+			c.Violation("audience:replay", v, r)
+		}
+		return
+	}
+	var evs []vkScEv
+	scopes := []int{0, 16, 24}
+	if c.Thorough() {
+		scopes = []int{0, 8, 16, 20, 21, 24, 25, 33}
+	}
+	for ci := range vkScClients {
+		for _, s := range scopes {
+			evs = append(evs, vkScEv{Kind: "ask", Client: ci, Scope: s})
+		}
+	}
+	depth := 3
+	if c.Thorough() {
+		depth = 4
+	}
+	n := 0
+	var rec func(h []vkScEv)
+	rec = func(h []vkScEv) {
+		if len(h) > 0 {
+			v, outs := vkScReplay(0, h)
+			n++
+			c.Add("evaluations", 1)
+			sig := strings.Join(outs, ",")
+			c.Outcome(outs[len(outs)-1])
+			if strings.Contains(sig, "hit-scoped") {
+				c.DistinctStr("nontrivial", fmt.Sprint(h))
+			}
+			if n%3001 == 1 {
+				c.Sample(map[string]any{"hist": fmt.Sprint(h), "outcomes": sig})
+			}
+			if v != "" {
+				if strings.Contains(v, "harness:") {
+					c.HarnessError(v)
+					return
+				}
+				cls := vkC19Class(v)
+				if cls != "outside its scope" && cls != "more specific than" {
+					return // another property's clause (C19/C04 report it)
+				}
+				if v2, _ := vkScReplay(0, h); v2 == "" {
+					c.Add("dropped_unreproducible", 1)
+					return
+				}
+				c.Violation("audience:"+cls, fmt.Sprintf("after %v: %s", h, v), map[string]any{"hist": h})
+				return
+			}
+		}
+		if len(h) == depth || c.NumViolations() > 5 {
+			return
+		}
+		for i, ev := range evs {
+			if len(h) == 0 && !c.Mine(i) {
+				continue
+			}
+			if c.OverBudget() {
+				c.Cap("time budget")
+				return
+			}
+			rec(append(append([]vkScEv{}, h...), ev))
+		}
+	}
+	rec(nil)
+}
